@@ -24,6 +24,7 @@ pub struct CheckArgs {
     pub repo: String,
     pub verif: String,
     pub proc_runs: Option<u64>,
+    pub checked_runs: Option<u64>,
 }
 
 #[derive(Default)]
@@ -86,14 +87,38 @@ pub fn default_runs(prop: &str, tier: &str) -> (u64, u64) {
     }
 }
 
+pub fn default_checked_runs(prop: &str, tier: &str) -> u64 {
+    match (prop, tier) {
+        ("C03", "quick") => 10000,
+        ("C03", _) => 400000,
+        ("C14", "quick") => 10000,
+        ("C14", _) => 400000,
+        _ => 0,
+    }
+}
+
 struct Shard {
     from: u64,
     to: u64,
     stride: u64,
 }
 
+/// "cworker" is the Tier A worker of the *checked* build (overflow checks and
+/// debug assertions on: the arithmetic `cargo build` / `cargo test` users run)
+fn exe_and_mode(mode: &str) -> (std::path::PathBuf, &str) {
+    if mode == "cworker" {
+        (replay::exe_for("checked"), "worker")
+    } else {
+        (std::env::current_exe().unwrap(), mode)
+    }
+}
+
+pub fn checked_build_available() -> bool {
+    replay::this_build() == "checked" || replay::exe_for("checked") != std::env::current_exe().unwrap()
+}
+
 fn spawn_worker(a: &CheckArgs, sh: &Shard, mode: &str) -> std::process::Child {
-    let exe = std::env::current_exe().unwrap();
+    let (exe, mode) = exe_and_mode(mode);
     Command::new(exe)
         .arg(mode)
         .arg("--prop")
@@ -280,7 +305,7 @@ fn run_batch(a: &Arc<CheckArgs>, total: u64, workers: usize, mode: &'static str,
 /// Regenerate the plan of (run, step) as a replay file by re-running the
 /// worker in dump mode.
 fn dump_step(a: &CheckArgs, mode: &str, run: u64, step: u64, file: &str) -> bool {
-    let exe = std::env::current_exe().unwrap();
+    let (exe, mode) = exe_and_mode(mode);
     let st = Command::new(exe)
         .arg(mode)
         .args(["--prop", &a.prop, "--tier", &a.tier, "--seed", &a.seed.to_string(), "--from", &run.to_string(), "--to", &(run + 1).to_string(), "--stride", "1", "--repo", &a.repo, "--verif", &a.verif])
@@ -304,6 +329,14 @@ pub fn check_main(args: CheckArgs) -> i32 {
     // ---- Tier A
     let mut agg = run_batch(&a, total_a, a.workers, "worker", 0);
     let t_a = real_now() - t0;
+
+    // ---- Tier A again, in the checked build (overflow checks and debug
+    // assertions on), over the next run indices: which build executes a run
+    // is a function of its index, not of the worker count
+    let total_c = a.checked_runs.unwrap_or(default_checked_runs(&a.prop, &a.tier));
+    let tc0 = real_now();
+    let mut agg_c = if total_c > 0 && checked_build_available() { run_batch(&a, total_c, a.workers, "cworker", total_a) } else { Agg::default() };
+    let t_c = real_now() - tc0;
 
     // ---- Tier B
     let tb0 = real_now();
@@ -346,7 +379,7 @@ pub fn check_main(args: CheckArgs) -> i32 {
     }
 
     let mut worker_errors: Vec<String> = Vec::new();
-    for src in [&agg.stats, &agg_b.stats] {
+    for src in [&agg.stats, &agg_b.stats, &agg_c.stats] {
         if let Some(set) = src.distinct.get("harness_errors") {
             worker_errors.extend(set.iter().take(5).cloned());
         }
@@ -357,7 +390,8 @@ pub fn check_main(args: CheckArgs) -> i32 {
     let mut all_viol: Vec<Replay> = Vec::new();
     all_viol.append(&mut agg.violations);
     all_viol.append(&mut agg_b.violations);
-    for (mode, crashes) in [("worker", agg.crashes.clone()), ("procworker", agg_b.crashes.clone())] {
+    all_viol.append(&mut agg_c.violations);
+    for (mode, crashes) in [("worker", agg.crashes.clone()), ("procworker", agg_b.crashes.clone()), ("cworker", agg_c.crashes.clone())] {
         // a systematic crash (every cyclic case overflows the stack) can kill
         // thousands of runs: regenerate and classify a bounded number per
         // reason, count the rest
@@ -459,7 +493,7 @@ pub fn check_main(args: CheckArgs) -> i32 {
     let wall = real_now() - t0;
     let mut stats = agg.stats.clone();
     let stats_b = agg_b.stats.clone();
-    let evals = stats.get("evaluations") + stats_b.get("evaluations");
+    let evals = stats.get("evaluations") + stats_b.get("evaluations") + agg_c.stats.get("evaluations");
     let nontrivial = stats.count("nontrivial") + stats_b.count("nontrivial");
     let mut samples = stats.samples.clone();
     samples.extend(stats_b.samples.iter().cloned());
@@ -486,10 +520,12 @@ pub fn check_main(args: CheckArgs) -> i32 {
             "exhaustive": false,
             "simulated_runs_lib": agg.runs_done,
             "simulated_runs_proc": agg_b.runs_done,
+            "simulated_runs_lib_checked_build": agg_c.runs_done,
+            "checked_build": {"what": "the same Tier A harness and customasm sources compiled with overflow-checks and debug-assertions on (the arithmetic of `cargo build`/`cargo test`), run over the run indices after the release-profile ones", "runs": agg_c.runs_done, "plan_executions": agg_c.stats.get("evaluations"), "wall_s": t_c, "worker_deaths": agg_c.crashes.len(), "available": checked_build_available()},
             "plan_executions_lib": stats.get("evaluations"),
             "process_executions_proc": stats_b.get("evaluations"),
-            "runs_per_hour": if wall > 0.0 { ((agg.runs_done + agg_b.runs_done) as f64 / wall * 3600.0) as u64 } else { 0 },
-            "seeds_per_hour": if wall > 0.0 { ((agg.runs_done + agg_b.runs_done) as f64 / wall * 3600.0) as u64 } else { 0 },
+            "runs_per_hour": if wall > 0.0 { ((agg.runs_done + agg_b.runs_done + agg_c.runs_done) as f64 / wall * 3600.0) as u64 } else { 0 },
+            "seeds_per_hour": if wall > 0.0 { ((agg.runs_done + agg_b.runs_done + agg_c.runs_done) as f64 / wall * 3600.0) as u64 } else { 0 },
             "executions_per_hour": if wall > 0.0 { (evals as f64 / wall * 3600.0) as u64 } else { 0 },
             "wall_s_lib": t_a,
             "wall_s_proc": t_b,
@@ -498,7 +534,7 @@ pub fn check_main(args: CheckArgs) -> i32 {
             "distinct_lib": distinct_counts,
             "distinct_proc": distinct_counts_b,
             "determinism_selftest": {"ok": det_ok, "lib_runs_compared": det_checked, "proc_runs_compared": det_b_checked, "method": "same run indices re-executed in other worker processes at two other worker counts; full event-log digests compared"},
-            "worker_deaths": agg.crashes.len() + agg_b.crashes.len(),
+            "worker_deaths": agg.crashes.len() + agg_b.crashes.len() + agg_c.crashes.len(),
             "violation_occurrences": total_violation_count,
             "violation_classes": by_class.keys().cloned().collect::<Vec<_>>(),
             "known_findings_met": known_reported,
@@ -515,11 +551,12 @@ pub fn check_main(args: CheckArgs) -> i32 {
     std::fs::write(format!("{}/{}.json", evdir, a.prop), serde_json::to_string_pretty(&ev).unwrap()).unwrap();
 
     println!(
-        "# {} {}: {} runs ({} lib + {} proc), {} executions, {} distinct non-trivial, {:.1}s; violations={} known={} harness_errors={}",
+        "# {} {}: {} runs ({} lib + {} lib/checked build + {} proc), {} executions, {} distinct non-trivial, {:.1}s; violations={} known={} harness_errors={}",
         a.prop,
         a.tier,
-        agg.runs_done + agg_b.runs_done,
+        agg.runs_done + agg_b.runs_done + agg_c.runs_done,
         agg.runs_done,
+        agg_c.runs_done,
         agg_b.runs_done,
         evals,
         nontrivial,
@@ -528,8 +565,8 @@ pub fn check_main(args: CheckArgs) -> i32 {
         known_reported,
         agg.harness_errors.len()
     );
-    if !agg.harness_errors.is_empty() || !agg_b.harness_errors.is_empty() {
-        for e in agg.harness_errors.iter().chain(agg_b.harness_errors.iter()) {
+    if !agg.harness_errors.is_empty() || !agg_b.harness_errors.is_empty() || !agg_c.harness_errors.is_empty() {
+        for e in agg.harness_errors.iter().chain(agg_b.harness_errors.iter()).chain(agg_c.harness_errors.iter()) {
             println!("HARNESS-ERROR: {}", truncate(e, 600));
         }
         if violations_reported > 0 {
@@ -539,6 +576,14 @@ pub fn check_main(args: CheckArgs) -> i32 {
     }
     if agg.runs_done + (agg.crashes.len() as u64) < total_a {
         println!("HARNESS-ERROR: only {} of {} runs completed", agg.runs_done, total_a);
+        return 2;
+    }
+    if total_c > 0 && checked_build_available() && agg_c.runs_done + (agg_c.crashes.len() as u64) < total_c {
+        println!("HARNESS-ERROR: only {} of {} checked-build runs completed", agg_c.runs_done, total_c);
+        return 2;
+    }
+    if total_c > 0 && !checked_build_available() {
+        println!("HARNESS-ERROR: the checked build of the harness is missing (bin/setup builds it)");
         return 2;
     }
     if violations_reported > 0 {
